@@ -77,8 +77,8 @@ Local(T, e) ==
   \cup (IF T.t = "inter" /\ Len(T.ms) >= 2 THEN { Res(Inter(Reverse(T.ms)), <<>>, "PermuteInter") } ELSE {})
   \cup (IF T.t = "obj" /\ Len(T.ps) >= 2 THEN { Res([T EXCEPT !.ps = Reverse(T.ps)], <<>>, "PermuteProps") } ELSE {})
   \cup (IF T.t = "obj" /\ Len(T.ps) >= 1
-        THEN { Res([T EXCEPT !.ps[1].ty = Deco("jsdoc", T.ps[1].ty)], <<>>, "AddJSDoc"),
-               Res(Ref(Fresh(e)), <<[n |-> Fresh(e), kind |-> "interface", ty |-> T]>>, "ObjectToInterface") }
+        THEN { Res([T EXCEPT !.ps[i].ty = Deco("jsdoc", T.ps[i].ty)], <<>>, "AddJSDoc") : i \in DOMAIN T.ps }
+             \cup { Res(Ref(Fresh(e)), <<[n |-> Fresh(e), kind |-> "interface", ty |-> T]>>, "ObjectToInterface") }
         ELSE {})
   \cup (IF T.t \in {"arr", "tuple"} THEN { Res(Deco("readonly", T), <<>>, "AddReadonly") } ELSE {})
   \cup (IF T.t \notin {"ref", "deco", "param"}
